@@ -1,4 +1,5 @@
 import SplinkVerif.Lemmas.Score
+import SplinkVerif.Generated.Arith
 /-!
 # C02 — scores follow the Fellegi–Sunter formula with the model's parameters
 
@@ -131,6 +132,24 @@ theorem threshold_prob_exact (p bf : ℝ) (s : Scored ℝ) (hp : 0 < p) (hp1 : p
 
 theorem threshold_zero_keeps_all (s : Scored ℝ) : keep (Threshold.prob (0 : ℝ)) s = true :=
   Lemmas.Score.keep_prob_zero s
+
+/-! ## The threshold arguments of `predict` (translated source) -/
+
+/-- **A threshold that is given is applied** — about the *translated* `threshold_args_to_match_weight`
+(`Generated/Arith.lean`, regenerated from `splink/internals/misc.py` on every run), for every number type and
+every value: a match weight is passed through unchanged (boundary values such as `0` included — it is never
+dropped), a probability `p` becomes `log2 (p / (1 - p))` except for the documented `p = 0` (= keep everything),
+no argument means no threshold, both arguments raise. -/
+theorem threshold_args_weight_applied {β : Type} [ANum β] (p w : β) :
+    Gen.threshold_args_to_match_weight none (some w) = some (some w) ∧
+    Gen.threshold_args_to_match_weight (some p) none =
+      (if ANum.eq p (ANum.ofNat 0) then some none
+       else some (some (ANum.log2 (if !(ANum.eq p (ANum.ofNat 1)) then ANum.div p (ANum.sub (ANum.ofNat 1) p) else ANum.inf)))) ∧
+    Gen.threshold_args_to_match_weight (none : Option β) none = some none ∧
+    Gen.threshold_args_to_match_weight (some p) (some w) = none := by
+  refine ⟨rfl, ?_, rfl, rfl⟩
+  simp only [Gen.threshold_args_to_match_weight, Gen.prob_to_match_weight, Gen.prob_to_bayes_factor,
+    Option.isSome_some, Option.isSome_none, Bool.and_false, Bool.false_eq_true, if_false, Option.getD_some]
 
 /-- Non-vacuity (logic part, evaluated): null level, exact level, else level; a
 NULL condition on the exact level falls through to ELSE. -/
